@@ -44,9 +44,10 @@ def run(tier):
     skipped_programs = 0
     skipped_stmts = 0
     unreachable_marked = 0
-    for module, env in profiles(tier) + [("GenCapCases", {})]:
-        r = le.generate(module, env=env, timeout=2400, cfg="lang/GenCapCases.cfg" if module == "GenCapCases" else "lang/MCGen.cfg",
-                        coverage=module != "GenCapCases")
+    families = ("GenCapCases", "GenLoopCases")
+    for module, env in profiles(tier) + [(f, {}) for f in families]:
+        r = le.generate(module, env=env, timeout=2400, cfg="lang/%s.cfg" % module if module in families else "lang/MCGen.cfg",
+                        coverage=module not in families)
         tally.add_tlc(module, r)
         judged = le.replay(r.records, modes=["nn", "fn", "fp"], ev=4, plan=True)
         tally.add(judged)
